@@ -414,10 +414,9 @@ func (w *world) exec(tok string) (obs string, ok bool) {
 	}
 	calls := "-"
 	if r.tr != nil {
-		l, got := r.tr.take(want)
-		if !got {
-			return "", false
-		}
+		// the tracker call of an acknowledged entry is made from a goroutine of this process: if it
+		// has not arrived after 5 s it was not made (an observation, not an infrastructure failure)
+		l, _ := r.tr.takeFor(want, 5*time.Second)
 		if len(l) > 0 {
 			calls = strings.Join(l, "+")
 		}
@@ -440,7 +439,7 @@ func runFSMCase(out *common.Out, n int, ops []op, events []string) {
 	for _, e := range events {
 		o, ok := w.exec(e)
 		if !ok {
-			out.Line("# inconclusive fsm case: event %s could not be executed (tracker call missing or bad token)", e)
+			out.Line("# bad fsm case: event token %s", e)
 			return
 		}
 		obs = append(obs, o)
